@@ -184,8 +184,13 @@ def compute_slots(repo, col, rule: str, emit=("jaxedges", "rec_index", "external
             if df is None:
                 continue
             found = True
+            # the rows: the data of the one-column frame, or the `rec_index` entry of a frame built from a dict of columns
+            rows_t = df.args[1] if len(df.args) > 1 else df.kw.get("data")
+            if rows_t is not None and rows_t.op == "dict":
+                kv_ = next((k_ for k_ in rows_t.args if k_.op == "kv" and k_.args[0].op == "const" and k_.args[0].name == "rec_index"), None)
+                rows_t = kv_.args[1] if kv_ is not None else rows_t
             for kc in KCS:
-                sp = cl.space(df.args[1], kc)
+                sp = cl.space(rows_t, kc)
                 cl.slots[("rec_index", kc)] = sp.s if sp else None
                 want = "N" if kc == "node" else "E"
                 col.check(sp is not None and sp.s == want, rule, fi, f"record: rows stored for a {kc} state",
